@@ -208,8 +208,26 @@ def big_task(item):
     return {"seed": seed, "n_mut": n_mut, "problems": [(k, d, jsonable_spec(spec)) for k, d in problems], "entries": info["entries"]}
 
 
+def fft_task(item):
+    """Runs on grids of 1000 points and more (the FFT convolution branch): always executed, not left to the time-boxed part."""
+    import random
+
+    seed, grid = item
+    r = random.Random(seed)
+    spec = wp.spec_from_seed(seed, boundary=False, chains=1, finite_clock=False, clustered=False, n_mut=r.choice([2, 3, 4]), n_samples=1)
+    spec["options"].update(grid_size=grid, num_iters=r.choice([1, 2]), num_particles=2, num_chains=1, burnin=1)
+    spec["via_cli"] = False
+    problems, info = evaluate(spec)
+    return {"seed": seed, "grid": grid, "problems": [(k, d, jsonable_spec(spec)) for k, d in problems], "entries": info["entries"]}
+
+
 def run(ctx):
     wp.warm_up()
+    grids = [1000, 1001, 1024, 1000, 1024, 1100] + ([1000, 1024, 2048, 1500] * 5 if ctx.tier != "quick" else [])
+    for out in runner.pmap(fft_task, [(ctx.sub(("fft", i)), g_) for i, g_ in enumerate(grids)], timeout=1500):
+        ctx.probe("run_on_fft_sized_grid")
+        for key, detail, sp in out["problems"]:
+            ctx.violation(dict(key, fft_grid=True), detail + " | grid of %d points" % out["grid"], {"spec": sp, "key": key, "seed": out["seed"]})
     sizes = [31, 32, 33, 63, 64, 65, 127, 128, 129, 130, 255, 256, 257, 258, 300] + ([511, 512, 513, 1000, 1025] if ctx.tier != "quick" else [])
     bres = runner.pmap(big_task, [(ctx.sub(("big", n_)), n_) for n_ in sizes], timeout=1500)
     for out in bres:
